@@ -161,6 +161,9 @@ def table_values(ver):
         out.append(m)
     out += [['num', 5, 'raw'], ['num', -2.5, 'raw'], ['num', 1e22, 'raw'], ['num', 0, 'raw'], ['num', 12.0, '12'],
             ['num', 1200.0, '1.2E+3']] + [['str', s] for s in gen.JSONLIKE]
+    if ver == '3.0':
+        inner = ['grid', '3.0', [['im', ['marker']]], [['x', []]], [[['x', ['num', 1.0]]], [['x', ['str', 'v']]]]]
+        out += [inner, ['list', [inner, inner]], ['dict', [['g', inner], ['h', inner]]]]
     return out
 
 
@@ -201,7 +204,8 @@ def run(part, args, env):
                         else:
                             g = ['grid', ver, [], [['a', []]], [[['a', ['dict', [['k', m], ['j', ['marker']]]]]]]]
                         case = {'kind': 'doc', 'grids': [g], 'choices': [k, (k + 1) % 6, (k * 5) % 6], 'as_array': k % 2 == 1,
-                                'form': FORMS[(k + i) % len(FORMS)], 'single': k % 3 != 1}
+                                'form': FORMS[(k + i) % len(FORMS)] if m[0] not in ('grid', 'list', 'dict') else ('obj-aliased' if k % 2 else 'obj'),
+                                'single': k % 3 != 1}
                         fn = check_doc
                     n += 1
                     try:
